@@ -1,8 +1,8 @@
 //! Seams for the deterministic simulator under /verif (see `ide::verif_hooks`).
 //!
-//! Compiled only with `--cfg tablegen_lsp_verif`. Drop-in replacements for the three
-//! primitives through which the server meets the scheduler and the disk:
-//! `std::sync::RwLock`, `tokio::task::{spawn_blocking, JoinHandle}` and `std::fs`.
+//! Compiled only with `--cfg tablegen_lsp_verif`. Drop-in replacements for the primitives
+//! through which the server meets the scheduler and the disk: `std::sync::{RwLock, Mutex}`,
+//! `tokio::task::{spawn_blocking, JoinHandle}` and `std::fs`.
 
 use std::ops::{Deref, DerefMut};
 
@@ -81,6 +81,53 @@ impl<T> Deref for RwLockWriteGuard<'_, T> {
 }
 
 impl<T> DerefMut for RwLockWriteGuard<'_, T> {
+    fn deref_mut(&mut self) -> &mut T {
+        &mut self.real
+    }
+}
+
+/// `std::sync::Mutex` under the simulator's admission control (same scheme as `RwLock`).
+#[derive(Debug, Default)]
+pub struct Mutex<T> {
+    inner: std::sync::Mutex<T>,
+}
+
+pub struct MutexGuard<'a, T> {
+    real: std::sync::MutexGuard<'a, T>,
+    _ghost: Guard,
+}
+
+impl<T> Mutex<T> {
+    pub fn new(value: T) -> Self {
+        Self {
+            inner: std::sync::Mutex::new(value),
+        }
+    }
+
+    pub fn lock(&self) -> Result<MutexGuard<'_, T>, LockError> {
+        let id = LockId::Other(self as *const Self as usize);
+        let ghost = hooks().lock_acquire(id, true);
+        match self.inner.try_lock() {
+            Ok(real) => Ok(MutexGuard {
+                real,
+                _ghost: ghost,
+            }),
+            Err(std::sync::TryLockError::Poisoned(_)) => Err(LockError("poisoned")),
+            Err(std::sync::TryLockError::WouldBlock) => {
+                panic!("verif: lock model diverged (mutex admitted, real lock busy)")
+            }
+        }
+    }
+}
+
+impl<T> Deref for MutexGuard<'_, T> {
+    type Target = T;
+    fn deref(&self) -> &T {
+        &self.real
+    }
+}
+
+impl<T> DerefMut for MutexGuard<'_, T> {
     fn deref_mut(&mut self) -> &mut T {
         &mut self.real
     }
